@@ -17,6 +17,9 @@ PROP = "C13"
 LEVEL = "exploration"
 # independent keypad table (in.touch2 keypad codes), not read from GeckoConstants
 KEYPAD = {"P1": 1, "P2": 2, "P3": 3, "P4": 4, "P5": 5, "BL": 6, "LI": 16, "Waterfall": 23}
+# which status-block item tells whether a keypad device is on (the harness' own table: an output's state item carries the device's key as its
+# name; the lights have no output item and are read from their user demand)
+STATE_ITEM = {"P1": "P1", "P2": "P2", "P3": "P3", "P4": "P4", "P5": "P5", "BL": "BL", "Waterfall": "Waterfall", "LI": "UdLi"}
 CMDS = ["pump_mode", "switch_on", "switch_off", "eco_on", "eco_off", "target_temp", "temp_unit", "watercare_idx", "watercare_label"]
 
 
@@ -122,7 +125,7 @@ def build_command(op: Dict[str, Any], ci: int, facade, spa, res: RunResult, snap
             return None
         s = switches[op["dev"] % len(switches)]
         on = kind == "switch_on"
-        props = GeckoConstants.DEVICES[s.key]
+        props = (None, None, STATE_ITEM[s.key])
         # the current state is read from the spa's own state item (the network is quiet: the client mirrors it), not from the
         # library's is_on
         was_on = _is_on(model.structure.accessors[props[2]]) if model is not None else bool(s.is_on)
